@@ -201,6 +201,10 @@ int main(int argc, char** argv)
             long sub = 1, fired_a = base.faults_fired_alloc, fired_e = base.faults_fired_elem, threw = 0, pts_n = 0;
             Json viol; Json vplan;
             Hash all; all.u64(base.digest); all.u64(base.trace);
+            Json dbg = Json::array();
+            bool debug = getenv("SIM_DEBUG") != nullptr;
+            auto note = [&](RunOut const& o) { if (debug) { char b[40]; snprintf(b, sizeof b, "%016llx/%016llx", (unsigned long long)o.digest, (unsigned long long)o.trace); dbg.push(b); } };
+            note(base);
             long reuse_c = base.reuse_checked, reuse_h = base.reuse_hits, align_c = base.align_checked, eq_c = base.eq_checked;
             long sw_px = base.sweep.pixels, sw_acc = base.sweep.accessors, sw_v = base.sweep.views;
             long allocs = base.n_alloc;
@@ -239,7 +243,7 @@ int main(int argc, char** argv)
                     run_plan(pf, o);
                     ++sub;
                     fired_a += o.faults_fired_alloc; threw += o.ops_threw;
-                    all.u64(o.digest); all.u64(o.trace);
+                    all.u64(o.digest); all.u64(o.trace); note(o);
                     sw_px += o.sweep.pixels; sw_acc += o.sweep.accessors; sw_v += o.sweep.views;
                     if (o.rep.any()) { viol = violation_json(o); vplan = pf; break; }
                 }
@@ -253,6 +257,7 @@ int main(int argc, char** argv)
             line.set("abstract", base.abstract);
             char hb[32]; snprintf(hb, sizeof hb, "%016llx", (unsigned long long)all.h); line.set("hash", hb);
             snprintf(hb, sizeof hb, "%016llx", (unsigned long long)base.trace); line.set("trace", hb);
+            if (debug) line.set("dbg", dbg);
             if (!viol.is_null()) { line.set("violation", viol); line.set("plan", vplan); }
             printf("R %s\n", line.dump().c_str()); fflush(stdout);
         }
